@@ -10,6 +10,10 @@ model again (operands unchanged).  Finalized canvases must refuse every mutator 
 Delta clause: a second tree of the same size made from the first re-using the same leaf objects
 (one sub-tree replaced and fitted to the size, or wrapped in an attribute remapping, or scrolled
 inside its rectangle); ``new.content_delta(old)`` applied to grid(old) must give grid(new).
+Encoding histories: a case may list several encodings ("stages"); everything above is then done under
+each of them in turn in the same process - the case's own encoding and iso8859-1, under which the very
+same leaf bytes are one cell per byte - so that anything remembered from a draw under one encoding
+meets the same bytes under the other.
 """
 from __future__ import annotations
 
@@ -41,22 +45,34 @@ RULE = (
     "with operators CanvasCombine, CanvasJoin (widths >= child), CanvasOverlay, CompositeCanvas(c), "
     "pad_trim_left_right, pad_trim_top_bottom, trim, trim_end, fill_attr_apply, fill_attr, set_cursor, set_pop_up, "
     "finalize; mutators either in place on a fresh composite or on a new CompositeCanvas wrapper; every offset is "
-    "an integer mapped modulo the range that is defined for the operand's model size; three encodings (utf-8, "
-    "euc-jp, iso8859-1). About half of the cases carry a delta variant of the same size built on the same leaf "
+    "an integer mapped modulo the range that is defined for the operand's model size; six encodings covering every "
+    "byte-encoding family set_encoding() declares (utf-8 weight 3; euc-jp, iso8859-1, big5, gbk, uhc weight 1 each; "
+    "the Big5/GBK/UHC alphabets hold one double-width character per class of trail byte - 0x40, 0x7e, A-Z, a-z, 0x5c, "
+    "0x80, 0x81-0xa0, 0xa1, 0xfe - and ASCII letters inside and outside the trail range 0x40-0x7e). 3/8 of the cases "
+    "in a multi-byte encoding carry an encoding history (own>8bit>own, 8bit>own>8bit or own>8bit): the whole case is "
+    "rebuilt and checked under each encoding in turn in the same process, '8bit' drawing the very same leaf bytes "
+    "under iso8859-1 (one cell per byte); only the first switch of a case clears caches, the later ones are a plain "
+    "urwid set_encoding(). About half of the cases carry a delta variant of the same size built on the same leaf "
     "objects: the sub-tree at a path replaced by a fresh sub-tree or by another sub-tree of the same tree (fitted to "
     "the size), nothing changed, remap (the sub-tree wrapped in a non-identity fill_attr / fill_attr_apply: same "
     "sub-canvases at the same places, only the attribute map of one part differs), or shift (the sub-tree scrolled "
     "inside its rectangle: k columns and/or rows trimmed on one side and padded on the opposite one); the delta is "
     "taken in both directions. trim1: "
     "exhaustive (left,right) trims of every 1-row TextCanvas over a 4-symbol alphabet (<=3 chars quick, <=5 "
-    "thorough) with one attribute per character. Non-trivial (expr): >=2 operators and a trim/overlay edge that "
+    "thorough) with one attribute per character, in all six encodings. trimseq: for every such text of <=3 (thorough "
+    "<=4) characters in the five multi-byte encodings, the histories own>8bit>own and 8bit>own>8bit, every "
+    "(left,right) trim under each stage. Non-trivial (expr): >=2 operators and a trim/overlay edge that "
     "falls inside a double-width character or is applied to an operand made of several side-by-side or stacked "
-    "sub-canvases; (trim1): the trim cuts a double-width character."
+    "sub-canvases; (trim1): the trim cuts a double-width character; (trimseq): some character takes more than one byte "
+    "(the two readings of the bytes differ)."
 )
 ASSUMPTIONS = [
     "trusted base: the wcwidth table and Python codecs (vlib.widths), list slicing on cell grids (vlib.cells)",
-    "generated characters are representable in the active encoding and in wide (euc-jp) mode their encoded length "
-    "equals their column width; charset-tagged ('0'/'U') runs are ASCII; attribute/charset runs are cut at cell "
+    "generated characters are representable in the case's encoding and in the double-byte encodings (euc-jp, big5, "
+    "gbk, uhc) their encoded length equals their column width; bytes are re-read under another encoding only in the "
+    "direction multi-byte -> iso8859-1 (every byte string is valid 8-bit text, one column per byte; what invalid "
+    "utf-8 / stray lead bytes look like is not asserted); urwid.set_encoding() may be called any number of times "
+    "between draws and a canvas is built and drawn under one encoding; charset-tagged ('0'/'U') runs are ASCII; attribute/charset runs are cut at cell "
     "boundaries: no row or run starts with a zero-width character (a combining mark shares the cell, hence the "
     "attribute, of its base character; the attribute of a cell holding two is undefined)",
     "operations are only applied inside the ranges real callers use: Combine operands have equal width (narrower "
@@ -69,14 +85,48 @@ ASSUMPTIONS = [
     "shortcuts and children lists are not checked",
 ]
 
-ENCODINGS = ["utf-8", "euc-jp", "iso8859-1"]
+# One or more encodings of every byte-encoding family urwid.set_encoding() declares: utf-8; the double-byte ("wide")
+# encodings, both the EUC kind (lead and trail byte >= 0xa1) and the Big5 / GBK / UHC kind (trail byte may lie in the
+# ASCII range 0x40..0x7e, or in 0x80..0xa0); 8-bit.
+ENCODINGS = ["utf-8", "euc-jp", "iso8859-1", "big5", "gbk", "uhc"]
+ENC_PICK = ("utf-8", "utf-8", "utf-8", "euc-jp", "iso8859-1", "big5", "gbk", "uhc")  # generator weights
+NARROW = "iso8859-1"  # the 8-bit view used in encoding histories: every byte is one character cell
 
-# character clusters per encoding: (visible clusters, bare zero-width marks)
+# character clusters per encoding: (visible clusters, bare zero-width marks).  The double-byte alphabets of the
+# Big5 / GBK / UHC kind hold, per class of trail byte the encoding assigns, the first double-width character in byte
+# order: trail 0x40, 0x7e, 'A'-'Z', 'a'-'z', 0x5c, 0x80, 0x81-0xa0, 0xa1, 0xfe (the comments give lead/trail bytes);
+# their ASCII letters lie inside ('a', 'x', '@', '~') and outside (' ', '1') the trail-byte range 0x40..0x7e.
 CLUSTERS = {
     "utf-8": (["a", "b", " ", "\u00e9", "e\u0301", "\u6f22", "\u5b57", "\u3042", "\u6f22\u0301", "\uff21",
                "o\u0308\u0301", "x"], []),
     "euc-jp": (["a", "b", "x", " ", "\u6f22", "\u5b57", "\u3042", "\uff21"], []),
     "iso8859-1": (["a", "b", "x", " ", "\u00e9", "\u00f1", "\u00a7"], []),
+    "big5": (["a", "x", "@", "~", " ", "1",
+              "\u3000",  # a1 40
+              "\ufe5a",  # a1 7e
+              "\uff0c",  # a1 41
+              "\uff5b",  # a1 61
+              "\ufe4f",  # a1 5c
+              "\ufe5b",  # a1 a1
+              "\uff56",  # a2 fe
+              ], []),
+    "gbk": (["a", "x", "@", "~", " ", "1",
+             "\u4e02",  # 81 40
+             "\u4e8a",  # 81 7e
+             "\u4e04",  # 81 41
+             "\u4e64",  # 81 61
+             "\u4e57",  # 81 5c
+             "\u4e90",  # 81 80
+             "\u4eed",  # 81 a1
+             "\u4fa2",  # 81 fe
+             ], []),
+    "uhc": (["a", "x", "@", "~", " ", "1",
+             "\uac02",  # 81 41
+             "\uac35",  # 81 61
+             "\uac56",  # 81 81
+             "\uac7e",  # 81 a1
+             "\uad13",  # 81 fe
+             ], []),
 }
 DEC_CHARS = "qxlkmj"
 ATTRS = [None, "A", "B", "C"]
@@ -128,9 +178,21 @@ def _rle(pairs, canon):
     return out
 
 
-def leaf_model(spec, enc, mode):
-    """-> dict(grid, coords, build) ; build() -> fresh urwid canvas"""
+def leaf_model(spec, enc, mode, view=None):
+    """-> dict(grid, coords, build) ; build() -> fresh urwid canvas
+
+    view: the encoding that is active when the canvas is built and drawn (default enc).  The text rows are always the
+    generated characters encoded in `enc`; with view == NARROW the very same bytes are read as 8-bit text, one
+    character cell per byte (stage of an encoding history).  A SolidCanvas takes a str and encodes it itself, so it
+    is modelled in the view encoding."""
+    if view is None or view == enc:
+        vmode = mode
+    elif view == NARROW:
+        vmode = "narrow"
+    else:
+        raise Discard()
     if spec["k"] == "solid":
+        enc, mode = view or enc, vmode
         ch = spec["ch"]
         if len(ch) != 1 or W.char_width(ch) != 1:
             raise Discard()
@@ -164,7 +226,7 @@ def leaf_model(spec, enc, mode):
                 raise Discard()
             runs.append((attr, cs, _check_text(text, cs, enc, mode)))
         rows_b.append(runs)
-        grid.append(C.row_of_runs(runs, mode))
+        grid.append(C.row_of_runs(runs, vmode))
     if not grid:
         raise Discard()
     width = max(len(r) for r in grid)
@@ -828,10 +890,21 @@ def analyze(case):
     return val
 
 
-def _analyze(case):
+def _stages(case):
+    """encoding history of a case: the encodings under which the expression is built, drawn and compared, in order,
+    in one process.  Each is the case's own encoding or NARROW (the same leaf bytes read as 8-bit text)."""
+    stages = case.get("stages") or [case["enc"]]
+    for view in stages:
+        if view not in (case["enc"], NARROW):
+            raise Discard()
+    return stages
+
+
+def _analyze(case, view=None):
     enc = case["enc"]
-    mode = W.mode_of(enc)
-    LM = [leaf_model(s, enc, mode) for s in case["leaves"]]
+    view = view or enc
+    mode = W.mode_of(view)
+    LM = [leaf_model(s, enc, W.mode_of(enc), view) for s in case["leaves"]]
     if not LM:
         raise Discard()
     plan = m_eval(case["tree"], LM)
@@ -844,11 +917,35 @@ def _analyze(case):
     return {"mode": mode, "LM": LM, "plan": plan, "plan2": plan2, "kind": kind}
 
 
+def _switch_encoding(view, first):
+    """A case starts from a clean slate (vlib.widths.use_encoding also empties every cache it can find, so that no
+    state leaks from the previous case).  The later switches of an encoding history are made the way an application
+    makes them - the public set_encoding() and nothing else: whatever the library remembers from the earlier stages
+    is part of what is tested."""
+    if first:
+        W.use_encoding(view)
+    else:
+        urwid.util.set_encoding(view)
+
+
 def check_expr(case):
-    W.use_encoding(case["enc"])
-    a = analyze(case)
-    if a is None:
-        raise Discard()
+    stages = _stages(case)
+    for i, view in enumerate(stages):
+        _switch_encoding(view, first=i == 0)
+        a = analyze(case) if view == case["enc"] else _analyze(case, view)
+        if a is None:
+            raise Discard()
+        if len(stages) == 1:
+            _check_stage(a)
+            continue
+        try:
+            _check_stage(a)
+        except Violation as v:
+            raise Violation(v.clause, f"stage {i} of the encoding history {stages!r} (leaf bytes encoded in "
+                                      f"{case['enc']}, drawn under {view}): {v.message}") from None
+
+
+def _check_stage(a):
     mode = a["mode"]
     leaves_u = [lm["build"]() for lm in a["LM"]]
     run = Run(mode, leaves_u)
@@ -882,14 +979,19 @@ TRIM1_SYMS = {
     "utf-8": ["a", "\u6f22", "\u00e9", "e\u0301"],
     "euc-jp": ["a", "\u6f22", "b", "\u3042"],
     "iso8859-1": ["a", "\u00e9", "b", "\u00f1"],
+    # ASCII letter in the trail-byte range, trail byte 'A', trail byte >= 0xa1, trail byte 0x7e / 0x80 / 'a'
+    "big5": ["a", "\uff0c", "\ufe5b", "\ufe5a"],
+    "gbk": ["a", "\u4e04", "\u4eed", "\u4e90"],
+    "uhc": ["a", "\uac02", "\uac7e", "\uac35"],
 }
 
 
-def _trim1_expr(case):
+def _trim1_expr(case, view=None):
     syms = TRIM1_SYMS[case["enc"]]
     row = [[syms[s], f"A{i}", None] for i, s in enumerate(case["s"])]
     return {
         "enc": case["enc"],
+        "stages": [view or case["enc"]],
         "leaves": [{"k": "text", "rows": [row], "extra": 0, "canon": True, "short": False}],
         "tree": ["padlr_raw", ["leaf", 0], -case["l"], -case["r"]],
         "delta": None,
@@ -901,7 +1003,32 @@ def check_trim1(case):
     check_expr(_trim1_expr(case))
 
 
-SUBS = {"expr": check_expr, "trim1": check_trim1}
+def _row_cols(enc, s, view):
+    if view == enc:
+        return sum(_sym_width(enc, x) for x in s)
+    return sum(len(TRIM1_SYMS[enc][x].encode(enc)) for x in s)  # 8-bit view: one column per byte
+
+
+def check_trimseq(case):
+    """case: {"enc", "s": [symbol index...], "stages": [encoding, ...]}: the row's bytes (encoded in enc) are drawn
+    under each encoding of the history in turn, in this process; under each one every (left, right) trim that leaves
+    a column is compared with the grid"""
+    enc = case["enc"]
+    if any(view not in (enc, NARROW) for view in case["stages"]):
+        raise Discard()
+    for i, view in enumerate(case["stages"]):
+        _switch_encoding(view, first=i == 0)
+        cols = _row_cols(enc, case["s"], view)
+        for left in range(cols):
+            for r in range(cols - left):
+                try:
+                    _check_stage(_analyze(_trim1_expr({"enc": enc, "s": case["s"], "l": left, "r": r}, view), view))
+                except Violation as v:
+                    raise Violation(v.clause, f"stage {i} of the encoding history {case['stages']!r}, trim "
+                                              f"({left}, {r}) under {view}: {v.message}") from None
+
+
+SUBS = {"expr": check_expr, "trim1": check_trim1, "trimseq": check_trimseq}
 
 
 # ---------------------------------------------------------------------------------------------
@@ -920,6 +1047,27 @@ def trim1_cases(maxlen):
                 for left in range(cols):
                     for r in range(cols - left):
                         yield {"enc": enc, "s": list(s), "l": left, "r": r}
+
+
+def trimseq_cases(maxlen):
+    """every row of <= maxlen symbols of every multi-byte encoding, under the histories own -> 8-bit -> own and
+    8-bit -> own -> 8-bit"""
+    for enc in ENCODINGS:
+        if enc == NARROW:
+            continue
+        for n in range(1, maxlen + 1):
+            for s in itertools.product(range(4), repeat=n):
+                for stages in ([enc, NARROW, enc], [NARROW, enc, NARROW]):
+                    yield {"enc": enc, "s": list(s), "stages": stages}
+
+
+def _trimseq_nontrivial(case):
+    # the two readings of the bytes differ: some character takes more than one byte
+    return any(len(TRIM1_SYMS[case["enc"]][x].encode(case["enc"])) > 1 for x in case["s"])
+
+
+def _trimseq_classes(case):
+    return [f"trimseq:{case['enc']}", "trimseq:" + ">".join("8bit" if v == NARROW else "own" for v in case["stages"])]
 
 
 def _trim1_nontrivial(case):
@@ -1074,7 +1222,11 @@ def gen_remap(src):
 def decode_case(data, depth):
     tree_bytes, leaf_bytes = data
     src = Src(tree_bytes)
-    enc = ENCODINGS[src.n(3)]
+    enc = ENC_PICK[src.n(len(ENC_PICK))]
+    # encoding history: the whole case is built and checked under each encoding in turn; 8 = the leaf bytes read as
+    # 8-bit text, A = the encoding they were written in
+    hist = ("A", "A", "A", "A", "A", "A8A", "8A8", "A8")[src.n(8)]
+    stages = [enc if h == "A" else NARROW for h in hist] if enc != NARROW and hist != "A" else None
     has_delta = src.n(2)
     tree = gen_tree(src, depth, top=True)
     delta = None
@@ -1089,7 +1241,10 @@ def decode_case(data, depth):
         }
     src = Src(leaf_bytes)
     leaves = [gen_leaf(src, enc) for _ in range(1 + src.n(4))]
-    return {"enc": enc, "leaves": leaves, "tree": tree, "delta": delta}
+    case = {"enc": enc, "leaves": leaves, "tree": tree, "delta": delta}
+    if stages:
+        case["stages"] = stages
+    return case
 
 
 def case_strategy(depth):
@@ -1104,6 +1259,8 @@ def _expr_classes(case):
     if a is None:
         return ["expr:discarded"]
     out = {f"enc:{case['enc']}"}
+    if case.get("stages"):
+        out.add("stages:" + ">".join("8bit" if v == NARROW else "own" for v in case["stages"]))
     for plan in (a["plan"], a["plan2"]):
         if plan is None:
             continue
@@ -1147,7 +1304,12 @@ def _expr_nontrivial(case):
 def shard(ctx):
     maxlen = ctx.scale(3, 5)
     ctx.sweep("trim1", trim1_cases(maxlen), nontrivial=_trim1_nontrivial, classify=_trim1_classes,
-              exhaustive_name=f"1-row trims, 4 symbols, <= {maxlen} characters, 3 encodings")
+              exhaustive_name=f"1-row trims, 4 symbols, <= {maxlen} characters, {len(ENCODINGS)} encodings")
+    if ctx.failure is None:
+        seqlen = ctx.scale(3, 4)
+        ctx.sweep("trimseq", trimseq_cases(seqlen), nontrivial=_trimseq_nontrivial, classify=_trimseq_classes,
+                  exhaustive_name=f"all trims of 1-row texts, 4 symbols, <= {seqlen} characters, 5 multi-byte "
+                                  f"encodings, under two encoding histories")
     if ctx.failure is None:
         ctx.given("expr", case_strategy(ctx.scale(5, 8)), ctx.scale(2000, 40000),
                   nontrivial=_expr_nontrivial, classify=_expr_classes)
